@@ -100,8 +100,14 @@ func VDictXMLShift(shift uint32) string {
 		if d.Kind == "enum" {
 			extra = "<item code=\"0\" name=\"ZERO\"/><item code=\"1\" name=\"ONE\"/>"
 		}
-		fmt.Fprintf(&b, "<avp name=\"%s\" code=\"%d\" must=\"%s\" may=\"P\" must-not=\"-\" may-encrypt=\"-\"%s><data type=\"%s\">%s</data></avp>\n",
-			d.Name, d.Code+shift, d.Must, v, typeNameOfKind(d.Kind), extra)
+		// an entry with a vendor id whose rule text does not ask for the V bit also forbids it (as a few
+		// entries of the embedded dictionaries do): the vendor id decides, not the rule text
+		mustNot := "-"
+		if d.Vendor != 0 && !strings.Contains(d.Must, "V") {
+			mustNot = "V"
+		}
+		fmt.Fprintf(&b, "<avp name=\"%s\" code=\"%d\" must=\"%s\" may=\"P\" must-not=\"%s\" may-encrypt=\"-\"%s><data type=\"%s\">%s</data></avp>\n",
+			d.Name, d.Code+shift, d.Must, mustNot, v, typeNameOfKind(d.Kind), extra)
 	}
 	b.WriteString("</application>\n</diameter>\n")
 	return b.String()
